@@ -208,6 +208,37 @@ let run_mon_resolver lines =
   let tr = List.filter (fun (s, _) -> s <> "END") (group_trace (fun s -> s) out_of_line lines) in
   print_verdict (mon_resolver (List.map (fun (s, _) -> aop_of_line resolver_api s) tr) (List.map snd tr))
 
+(* provider composite: HOSTNAME h / NEW 0 hostname / NEW 1 provider 0 / UPDATE 1 svc / DEL 1 / DELIVER / ADV ... *)
+let provider_api ws l =
+  match ws with
+  | ["NEW"; _; "provider"; _] -> PNewProv
+  | ["UPDATE"; _; s] -> PUpdate (service_of_tok s)
+  | ["DEL"; _] -> PDestroy
+  | _ -> failwith ("provider operation: " ^ l)
+let is_poll = function OPoll _ -> true | _ -> false
+let run_provider args lines =
+  let ifs = ifaces_of_tok (match args with [a] -> a | _ -> "-") in
+  let (local, rest) = hostname_split lines in
+  let ops = List.map (aop_of_line provider_api) rest @ [AApi PDestroy] in
+  match comp_run fuel_actor local ifs ops with
+  | g0 :: gs ->
+    out_line ".";
+    let n = List.length gs in
+    let gs = List.mapi (fun i g -> if i = n - 1 then List.filter (fun o -> not (is_poll o)) g else g) gs in
+    print_groups (g0 :: gs)
+  | [] -> ()
+
+let run_mon_provider args lines =
+  let tr = group_trace (fun s -> s) out_of_line lines in
+  match tr with
+  | (l1, _) :: (_, o0) :: rest ->
+    (match words l1 with
+     | ["HOSTNAME"; _] ->
+       let rest = List.filter (fun (s, _) -> s <> "END") rest in
+       print_verdict (mon_provider (List.map (fun (s, _) -> aop_of_line provider_api s) rest) (o0 :: List.map snd rest))
+     | _ -> failwith "mon-provider: first operation must be HOSTNAME")
+  | _ -> failwith "mon-provider: short trace"
+
 (* ---------------- main ---------------- *)
 let engines : (string * (string list -> string list -> unit)) list ref = ref []
 let register name f = engines := (name, f) :: !engines
@@ -221,6 +252,8 @@ let () =
   register "hostname" run_hostname;
   register "mon-hostname" run_mon_hostname;
   register "resolver" (fun _ lines -> run_resolver lines);
+  register "provider" run_provider;
+  register "mon-provider" run_mon_provider;
   register "mon-resolver" (fun _ lines -> run_mon_resolver lines)
 
 let flush_script hdr lines =
